@@ -350,6 +350,18 @@ func runSysOne(e *Env, cfg sysCfg, record bool) (cases []string) {
 		case <-c2.Done:
 		case <-time.After(20 * time.Second):
 		}
+		// the same with ONE reply variable used for both calls: the empty reply replaces the full one
+		var shared []byte
+		for _, a := range []*[]byte{&a1, &a2} {
+			cc := conn.Go("Sys.Empty", a, &shared, make(chan *rpc.Call, 1))
+			select {
+			case <-cc.Done:
+			case <-time.After(20 * time.Second):
+			}
+		}
+		if len(shared) != 0 {
+			e.fail("C01-wrong-reply", fmt.Sprintf("a call whose handler returned an empty reply completed without error but the caller's reply variable still holds %q, the reply of the previous call made with that variable", shared), replay)
+		}
 		if c2.Error != nil || string(f1) != "full" || len(f2) != 0 {
 			e.fail("C01-wrong-reply", fmt.Sprintf("a call whose handler returned an empty reply got %q (err=%v) right after a call that got %q", f2, c2.Error, f1), replay)
 		}
